@@ -72,6 +72,9 @@ def make(c: dict):
     if c.get("warm"):
         # a guess close to the generating model, with its (non-uniform) weights: hard to improve on in one inner step
         init = ttb.ktensor([u * (1 + 0.01 * r2.rand(*u.shape)) for u in U], lam * (1 + 0.01 * r2.rand(R)))
+    if c.get("zero_weight") and R >= 2:
+        # a non-negative guess may carry a weight that is exactly zero
+        init = ttb.ktensor([f.copy() for f in init.factor_matrices], np.array([2.0, 1.0, 0.0, 3.0][:R][::-1].copy()))
     if c["zero_row"]:
         init.factor_matrices[1][0, :] = 0.0
     return X, Xd, init
@@ -212,6 +215,11 @@ def main(tier: str) -> int:
             runs.append({"alg": alg, "shape": [3, 4], "sparse": sp, "maxiters": 1, "maxinner": 2, "rank": 2, "seed": sd + 3,
                          "stoptol": 1e-4, "printitn": 0, "precompinds": True, "inexact": False, "lbfgs": 3,
                          "empty_slice": False, "zero_row": True})
+    for alg in ("mu", "pdnr", "pqnr"):
+        for sp in (False, True):
+            runs.append({"alg": alg, "shape": [4, 3, 3], "sparse": sp, "maxiters": 2, "maxinner": 3, "rank": 3, "seed": sd + 4,
+                         "stoptol": 1e-4, "printitn": 0, "precompinds": True, "inexact": True, "lbfgs": 3,
+                         "empty_slice": False, "zero_row": False, "zero_weight": True})
     # witnesses of K-C11-sparse-all-zero-data (dense all-zero data is answered by mu and pdnr)
     for alg in ("mu", "pdnr", "pqnr"):
         for sp in (False, True):
